@@ -94,6 +94,8 @@ def detect(d, ids):
     if rc != 0:
         return {"error": "patch does not apply to /repo: " + out[-300:]}
     res = {}
+    # the check rewrites evidence/<ID>.json on every run: what it writes with the patch applied must not stay
+    saved = {i: open(f"/verif/evidence/{i}.json").read() for i in ids if os.path.exists(f"/verif/evidence/{i}.json")}
     try:
         for i in ids:
             rc, out = sh(["./check", i], cwd="/verif")
@@ -110,6 +112,8 @@ def detect(d, ids):
             res[i] = {"exit": rc, "verdicts": det}
     finally:
         sh(["git", "-C", "/repo", "checkout", "--", "."])
+        for i, txt in saved.items():
+            open(f"/verif/evidence/{i}.json", "w").write(txt)
     return res
 
 
